@@ -37,7 +37,6 @@ struct model_wait
 
 asio::io_context* g_ios;
 asio::high_resolution_timer* g_t[NT];
-alignas(asio::high_resolution_timer) char g_store[NT][sizeof(asio::high_resolution_timer)];
 model_timer g_m[NT];
 model_wait g_w[MAXW];
 int g_nw = 0, g_seq = 0, g_done = 0, g_ops = 0;
@@ -168,14 +167,14 @@ void next_op()
 	{
 		// destroy with a possibly pending wait, then recreate
 		bool amb; int const expect = model_abort(t, now, amb);
-		g_t[t]->~high_resolution_timer();
+		delete g_t[t];
 		if (expect == 1 || amb)
 		{
 			if (amb) { g_w[m.wid].maybe_aborted = true; g_w[m.wid].abort_time = now; }
 			else { g_w[m.wid].state = 1; g_w[m.wid].abort_time = now; }
 		}
 		m = model_timer();
-		g_t[t] = new (g_store[t]) asio::high_resolution_timer(*g_ios);
+		g_t[t] = new asio::high_resolution_timer(*g_ios);
 	}
 }
 
@@ -187,10 +186,10 @@ extern "C" int harness_main()
 	simulation s(cfg);
 	asio::io_context ios(s);
 	g_ios = &ios;
-	for (int i = 0; i < NT; ++i) g_t[i] = new (g_store[i]) asio::high_resolution_timer(ios);
+	for (int i = 0; i < NT; ++i) g_t[i] = new asio::high_resolution_timer(ios);
 	g_unit = vp_sym_long(1, 1000000000L);
 
-#ifdef TIES
+#if defined(TIES)
 	// preset: both timers armed for the same instant u with waits outstanding, then K symbolic operations
 	for (int t = 0; t < 2; ++t)
 	{
@@ -201,6 +200,20 @@ extern "C" int harness_main()
 		w.timer = t; w.wstart = 0; w.expiry = g_unit; w.arm_seq = g_m[t].arm_seq; w.state = 0; w.maybe_aborted = false; w.due_at_start = false;
 		g_m[t].waiting = true; g_m[t].wid = id;
 		g_t[t]->async_wait([id](error_code const& ec) { on_wait(id, ec); });
+	}
+#elif defined(EXPIRED)
+	// preset: timer 0 armed for u and never waited on; timer 1 armed for 2u with a wait outstanding.  Operations
+	// issued from timer 1's handler see timer 0 past its expiry.
+	g_t[0]->expires_at(time_point(duration(g_unit)));
+	g_m[0].expiry = g_unit; g_m[0].arm_seq = g_seq++;
+	g_t[1]->expires_at(time_point(duration(2 * g_unit)));
+	g_m[1].expiry = 2 * g_unit; g_m[1].arm_seq = g_seq++;
+	{
+		int const id = g_nw++;
+		model_wait& w = g_w[id];
+		w.timer = 1; w.wstart = 0; w.expiry = 2 * g_unit; w.arm_seq = g_m[1].arm_seq; w.state = 0; w.maybe_aborted = false; w.due_at_start = false;
+		g_m[1].waiting = true; g_m[1].wid = id;
+		g_t[1]->async_wait([id](error_code const& ec) { on_wait(id, ec); });
 	}
 #endif
 	int const outside = vp_choose(2) == 0 ? K : 1;
@@ -214,7 +227,7 @@ extern "C" int harness_main()
 		if (g_w[i].state == 2) { if (g_w[i].success) ++succ; else ++ab; }
 	}
 	vp_assert(g_done == g_nw, 21);
-	for (int i = 0; i < NT; ++i) g_t[i]->~high_resolution_timer();
+	for (int i = 0; i < NT; ++i) delete g_t[i];
 	vp_reach(1);
 	if (succ > 0) vp_reach(2);
 	if (ab > 0) vp_reach(3);
